@@ -154,17 +154,19 @@ def decode(code):
         s, h = divmod(r, 10)
         return f'Adv {KINDS[kind] if kind < len(KINDS) else "other"} by={"PC?"[min(by, 2)]} {"https" if s == 1 else "http" if s == 0 else "?"} host={"alt" if h else "ip"}'
     if k == 2:
-        return f'Create role={"PC"[r // 100 % 2]} ctx={r // 10 % 10} host={"alt" if r % 10 else "ip"}'
+        return f'Create role={"PC"[r // 100 % 2]} ssl_context={CTXNAME.get(r // 10 % 10, "?")} host={"alt" if r % 10 else "ip"}'
     if k == 3:
-        return f'Conn role={"PC"[r // 100 % 2]} https={r // 10 % 5} ctx={r % 10}'
+        return f'Conn role={"PC"[r // 100 % 2]} https={r // 10 % 5} context={CTXNAME.get(r % 10, "?")}{" (not the one passed in)" if r // 10 % 10 >= 5 else ""}'
     if k == 4:
         return f'Attempt role={"PC"[r // 1000 % 2]} client_tls={r // 100 % 10} port_tls={r // 10 % 10} outcome={["ok", "sslerror", "reset"][r % 10] if r % 10 < 3 else "?"}'
-    return f'Wrap ctx={r // 10} server_side={r % 10}'
+    return f'Wrap context={CTXNAME.get(r // 10, "?")} server_side={r % 10}'
+
+
+CTXNAME = {0: 'None', 1: 'P.client', 2: 'P.server', 3: 'C.client', 4: 'C.server', 9: 'foreign'}
 
 
 def summary(tr):
-    return {'statuses[ctor,start,isc,p_port_tls,c_sink_tls,P_secure,C_secure]': None,
-            'ctor': tr.get('ctor'), 'start': tr.get('start'), 'start_msg': tr.get('start_msg'), 'isc': tr.get('isc'),
+    return {'ctor': tr.get('ctor'), 'start': tr.get('start'), 'start_msg': tr.get('start_msg'), 'isc': tr.get('isc'),
             'phases': tr.get('phases'), 'events': [decode(c) for c in ev_codes(tr)],
             'urls': sorted({(a['kind'], a['by'], a['url']) for a in tr.get('advs', [])})[:40]}
 
